@@ -792,7 +792,7 @@ def suite_conc(binf, tier, rng):
         pairs += [(a, b) for a in names for b in names if (a, b) not in pairs and (mut(a) or mut(b))]
     states = [("cold", [])] if tier == "quick" else [("cold", []), ("warm", warm)]
     if tier == "quick":
-        states.append(("warm", warm)); pairs_for = {"cold": pairs[:6] + pairs[-2:], "warm": pairs[:-2]}
+        states.append(("warm", warm)); pairs_for = {"cold": pairs[:6] + [("write k B", "list")] + pairs[-2:], "warm": pairs[:-2]}
     else:
         pairs_for = {"cold": pairs, "warm": pairs}
     def serial(setup, first, second):
